@@ -1,0 +1,85 @@
+//go:build verif
+
+// Machine-checked contracts for package variables (comment-only, build tag `verif`).
+package variables
+
+// ------------------------------------------------------------------ raw structures -> circuit assignments (C19)
+// A hash string becomes the *big.Int that math/big's SetString(s, 10) yields: isdecimal(s) is "SetString accepts s",
+// bigofdecimal(s) its value (both uninterpreted: the contracts say that this value, and nothing else, sits at the
+// corresponding position; a string SetString refuses leaves a nil *big.Int, which gnark refuses when the assignment
+// is turned into a witness - that last step is gnark's and is an assumption).
+// Under `flag bigint-boxing` a *big.Int boxed into a frontend.Variable is tracked as an option value (value or nil)
+// and read back through bigval / nilbig.
+//@ def hashOf(v, s) = iff(isdecimal(s), !nilbig(v)) && implies(isdecimal(s), bigval(v) == bigofdecimal(s))
+//@ def hashesUpto(res, raw, n) = forall(i, 0, n, hashOf(res[i], raw[i]))
+//@ def hashesOf(res, raw) = len(res) == len(raw) && hashesUpto(res, raw, len(raw))
+//@ def u64sOf(res, raw) = len(res) == len(raw) && forall(i, 0, len(raw), res[i].Limb == raw[i])
+//@ def qesUpto(res, raw, n) = forall(i, 0, n, len(raw[i]) >= 2 && res[i][0].Limb == raw[i][0] && res[i][1].Limb == raw[i][1])
+//@ def qesOf(res, raw) = len(res) == len(raw) && qesUpto(res, raw, len(raw))
+
+//@ func DeserializeMerkleCap(merkleCapRaw []string) (res FriMerkleCap)
+//@   props C19
+//@   plain
+//@   flag bigint-boxing
+//@   ensures hashesOf(res, merkleCapRaw)
+//@   loop 0 invariant 0 <= i && i <= n && n == len(merkleCapRaw) && len(merkleCap) == n && hashesUpto(merkleCap, merkleCapRaw, i)
+
+//@ func StringArrayToHashBN254Array(rawHashes []string) (res []poseidon.BN254HashOut)
+//@   props C19
+//@   plain
+//@   flag bigint-boxing
+//@   ensures hashesOf(res, rawHashes)
+//@   loop 0 invariant 0 <= i && i <= len(rawHashes) && len(hashes) == i && hashesUpto(hashes, rawHashes, i)
+
+//@ func DeserializeOpeningSet(openingSetRaw struct{Constants [][]uint64; PlonkSigmas [][]uint64; Wires [][]uint64; PlonkZs [][]uint64; PlonkZsNext [][]uint64; PartialProducts [][]uint64; QuotientPolys [][]uint64}) (res OpeningSet)
+//@   props C19
+//@   plain
+//@   ensures qesOf(res.Constants, openingSetRaw.Constants) && qesOf(res.PlonkSigmas, openingSetRaw.PlonkSigmas) && qesOf(res.Wires, openingSetRaw.Wires)
+//@   ensures qesOf(res.PlonkZs, openingSetRaw.PlonkZs) && qesOf(res.PlonkZsNext, openingSetRaw.PlonkZsNext)
+//@   ensures qesOf(res.PartialProducts, openingSetRaw.PartialProducts) && qesOf(res.QuotientPolys, openingSetRaw.QuotientPolys)
+
+//@ func DeserializeVerifierOnlyCircuitData(raw types.VerifierOnlyCircuitDataRaw) (res VerifierOnlyCircuitData)
+//@   props C19
+//@   plain
+//@   flag bigint-boxing
+//@   ensures hashesOf(res.ConstantSigmasCap, raw.ConstantsSigmasCap)
+//@   ensures hashOf(res.CircuitDigest, raw.CircuitDigest)
+
+//@ def evalProofsUpto(r, w, n) = forall(j, 0, n, u64sOf(r[j].Elements, w[j].LeafElements) && hashesOf(r[j].MerkleProof.Siblings, w[j].MerkleProof.Hash))
+//@ def stepsUpto(r, w, n) = forall(j, 0, n, qesOf(r[j].Evals, w[j].Evals) && hashesOf(r[j].MerkleProof.Siblings, w[j].MerkleProof.Siblings))
+//@ def roundOf(r, w) = len(r.InitialTreesProof.EvalsProofs) == len(w.InitialTreesProof.EvalsProofs) && evalProofsUpto(r.InitialTreesProof.EvalsProofs, w.InitialTreesProof.EvalsProofs, len(w.InitialTreesProof.EvalsProofs)) &&
+//@        len(r.Steps) == len(w.Steps) && stepsUpto(r.Steps, w.Steps, len(w.Steps))
+//@ def roundsUpto(r, w, n) = forall(i, 0, n, roundOf(r[i], w[i]))
+//@ def capsUpto(r, w, n) = forall(i, 0, n, hashesOf(r[i], w[i]))
+//@ def friProofOf(r, w) = r.PowWitness.Limb == w.PowWitness && qesOf(r.FinalPoly.Coeffs, w.FinalPoly.Coeffs) &&
+//@        len(r.CommitPhaseMerkleCaps) == len(w.CommitPhaseMerkleCaps) && capsUpto(r.CommitPhaseMerkleCaps, w.CommitPhaseMerkleCaps, len(w.CommitPhaseMerkleCaps)) &&
+//@        len(r.QueryRoundProofs) == len(w.QueryRoundProofs) && roundsUpto(r.QueryRoundProofs, w.QueryRoundProofs, len(w.QueryRoundProofs))
+
+//@ func DeserializeFriProof(openingProofRaw struct{CommitPhaseMerkleCaps [][]string; QueryRoundProofs []struct{InitialTreesProof struct{EvalsProofs []types.EvalProofRaw}; Steps []struct{Evals [][]uint64; MerkleProof struct{Siblings []string}}}; FinalPoly struct{Coeffs [][]uint64}; PowWitness uint64}) (res FriProof)
+//@   props C19
+//@   plain
+//@   ensures friProofOf(res, openingProofRaw)
+//@   loop 0 invariant 0 <= i && i <= len(openingProofRaw.CommitPhaseMerkleCaps) && len(openingProof.CommitPhaseMerkleCaps) == len(openingProofRaw.CommitPhaseMerkleCaps) &&
+//@        capsUpto(openingProof.CommitPhaseMerkleCaps, openingProofRaw.CommitPhaseMerkleCaps, i)
+//@   loop 1 invariant 0 <= i && i <= numQueryRoundProofs && numQueryRoundProofs == len(openingProofRaw.QueryRoundProofs) && len(openingProof.QueryRoundProofs) == numQueryRoundProofs &&
+//@        roundsUpto(openingProof.QueryRoundProofs, openingProofRaw.QueryRoundProofs, i)
+//@   loop 2 invariant 0 <= j && j <= numEvalProofs && numEvalProofs == len(openingProofRaw.QueryRoundProofs[i].InitialTreesProof.EvalsProofs) &&
+//@        len(openingProof.QueryRoundProofs) == numQueryRoundProofs && roundsUpto(openingProof.QueryRoundProofs, openingProofRaw.QueryRoundProofs, i) &&
+//@        len(openingProof.QueryRoundProofs[i].InitialTreesProof.EvalsProofs) == numEvalProofs &&
+//@        evalProofsUpto(openingProof.QueryRoundProofs[i].InitialTreesProof.EvalsProofs, openingProofRaw.QueryRoundProofs[i].InitialTreesProof.EvalsProofs, j)
+//@   loop 3 invariant 0 <= j && j <= numSteps && numSteps == len(openingProofRaw.QueryRoundProofs[i].Steps) && len(openingProof.QueryRoundProofs[i].Steps) == numSteps &&
+//@        len(openingProof.QueryRoundProofs) == numQueryRoundProofs && roundsUpto(openingProof.QueryRoundProofs, openingProofRaw.QueryRoundProofs, i) &&
+//@        len(openingProof.QueryRoundProofs[i].InitialTreesProof.EvalsProofs) == len(openingProofRaw.QueryRoundProofs[i].InitialTreesProof.EvalsProofs) &&
+//@        evalProofsUpto(openingProof.QueryRoundProofs[i].InitialTreesProof.EvalsProofs, openingProofRaw.QueryRoundProofs[i].InitialTreesProof.EvalsProofs, len(openingProofRaw.QueryRoundProofs[i].InitialTreesProof.EvalsProofs)) &&
+//@        stepsUpto(openingProof.QueryRoundProofs[i].Steps, openingProofRaw.QueryRoundProofs[i].Steps, j)
+
+//@ func DeserializeProofWithPublicInputs(raw types.ProofWithPublicInputsRaw) (res ProofWithPublicInputs, pis []uint64)
+//@   props C19
+//@   plain
+//@   ensures hashesOf(res.Proof.WiresCap, raw.Proof.WiresCap) && hashesOf(res.Proof.PlonkZsPartialProductsCap, raw.Proof.PlonkZsPartialProductsCap) && hashesOf(res.Proof.QuotientPolysCap, raw.Proof.QuotientPolysCap)
+//@   ensures qesOf(res.Proof.Openings.Constants, raw.Proof.Openings.Constants) && qesOf(res.Proof.Openings.PlonkSigmas, raw.Proof.Openings.PlonkSigmas) && qesOf(res.Proof.Openings.Wires, raw.Proof.Openings.Wires)
+//@   ensures qesOf(res.Proof.Openings.PlonkZs, raw.Proof.Openings.PlonkZs) && qesOf(res.Proof.Openings.PlonkZsNext, raw.Proof.Openings.PlonkZsNext)
+//@   ensures qesOf(res.Proof.Openings.PartialProducts, raw.Proof.Openings.PartialProducts) && qesOf(res.Proof.Openings.QuotientPolys, raw.Proof.Openings.QuotientPolys)
+//@   ensures friProofOf(res.Proof.OpeningProof, raw.Proof.OpeningProof)
+//@   ensures u64sOf(res.PublicInputs, raw.PublicInputs)
+//@   ensures len(pis) == len(raw.PublicInputs) && forall(k, 0, len(pis), pis[k] == raw.PublicInputs[k])
